@@ -136,6 +136,7 @@ type Sim struct {
 
 	byGoid map[uint64]*Task
 	all    []*Task
+	active []*Task // tasks that have not finished, in creation order
 	names  map[string]bool
 	cur    *Task
 	main   *Task
@@ -334,7 +335,19 @@ func (s *Sim) loop() {
 		var idle []*Task
 		var next time.Time
 		s.mu.Lock()
-		for _, t := range s.all {
+		// finished tasks are dropped from the active list (creation order kept)
+		k := 0
+		for _, t := range s.active {
+			if !t.done {
+				s.active[k] = t
+				k++
+			}
+		}
+		for i := k; i < len(s.active); i++ {
+			s.active[i] = nil
+		}
+		s.active = s.active[:k]
+		for _, t := range s.active {
 			if !t.parked || t.done {
 				continue
 			}
@@ -585,6 +598,7 @@ func (s *Sim) newTask(id, origin string, lib bool) *Task {
 	t.site = "start:" + origin
 	t.lastSite = t.site
 	s.all = append(s.all, t)
+	s.active = append(s.active, t)
 	s.live.Add(1)
 	return t
 }
@@ -632,9 +646,43 @@ func (s *Sim) crash(t *Task, val interface{}, stack string) {
 	if s.OnCrash != nil && s.OnCrash(t, val, stack) {
 		return
 	}
+	if !t.Lib && !panicInLibrary(stack) {
+		// a bug of the harness itself (on a harness task) is never reported as a
+		// violation; a panic escaping a library-spawned goroutine always is: the
+		// process would have crashed, whoever raised it
+		if s.inconcl == "" && s.fail == nil {
+			s.inconcl = fmt.Sprintf("HARNESS BUG: task %s (origin %s) panicked outside the library: %v\n%s", t.ID, t.Origin, val, trimStack(stack))
+		}
+		return
+	}
 	if s.fail == nil {
 		s.fail = &Failure{Class: "panic", Msg: fmt.Sprintf("task %s (origin %s) died with an unrecovered panic: %v\n%s", t.ID, t.Origin, val, trimStack(stack))}
 	}
+}
+
+// panicInLibrary reports whether the innermost non-runtime frame of a panic's
+// stack belongs to the code under test.
+func panicInLibrary(st string) bool {
+	lines := strings.Split(st, "\n")
+	seenPanic := false
+	for _, l := range lines {
+		if strings.HasPrefix(l, "panic(") || strings.HasPrefix(l, "runtime.gopanic") || strings.HasPrefix(l, "runtime.panic") || strings.HasPrefix(l, "runtime.goPanic") {
+			seenPanic = true
+			continue
+		}
+		if !seenPanic || strings.HasPrefix(l, "\t") || l == "" {
+			continue
+		}
+		// skip runtime and standard-library frames: the first frame of the code
+		// under test or of the harness decides
+		if strings.Contains(l, "github.com/fluffle/goirc/") {
+			return true
+		}
+		if strings.HasPrefix(l, "verifsim/worlds.") || strings.HasPrefix(l, "verifsim/simnet.") {
+			return false
+		}
+	}
+	return true
 }
 
 func trimStack(st string) string {
@@ -674,21 +722,6 @@ func Go(site string, f func()) {
 	p.spawned++
 	t := s.newTask(fmt.Sprintf("%s/%d", p.ID, p.spawned), site, true)
 	s.startTask(t, f)
-}
-
-func goid() uint64 {
-	var buf [48]byte
-	n := runtime.Stack(buf[:], false)
-	// "goroutine 123 ["
-	var id uint64
-	for i := 10; i < n; i++ {
-		c := buf[i]
-		if c < '0' || c > '9' {
-			break
-		}
-		id = id*10 + uint64(c-'0')
-	}
-	return id
 }
 
 func (s *Sim) self() *Task {
